@@ -695,6 +695,76 @@ pub fn c19_check(cap_idx: usize, o: &Opts, rep: &mut Report) {
     with_cap!(cap_idx, enumerate, o, rep, cap_idx)
 }
 
+fn c18_cap_lines<const N: usize, const R: usize>(cap_idx: usize, depth: usize, out: &mut dyn std::io::Write) -> u64 {
+    let acts = alphabet(false);
+    let mut lines = 0u64;
+    let mut seqs: Vec<Vec<ZAct>> = vec![vec![]];
+    let mut frontier: Vec<Vec<ZAct>> = vec![vec![]];
+    for _ in 0..depth {
+        let mut next = vec![];
+        for s in &frontier {
+            for a in &acts {
+                let mut t = s.clone();
+                t.push(*a);
+                next.push(t);
+            }
+        }
+        seqs.extend(next.iter().cloned());
+        frontier = next;
+    }
+    if depth > 2 {
+        // beyond depth 2 the reduced alphabet (as in C19 itself), to keep the transcript at a few hundred MB
+        seqs.retain(|s| s.len() <= 2);
+        let red = alphabet(true);
+        let mut frontier: Vec<Vec<ZAct>> = vec![vec![]];
+        for d in 1..=depth {
+            let mut next = vec![];
+            for s in &frontier {
+                for a in &red {
+                    let mut t = s.clone();
+                    t.push(*a);
+                    next.push(t);
+                }
+            }
+            if d > 2 {
+                seqs.extend(next.iter().cloned());
+            }
+            frontier = next;
+        }
+    }
+    for prefix in prefixes() {
+        for seq in &seqs {
+            let shown = seq.iter().map(|a| a.show()).collect::<Vec<_>>().join(";");
+            crate::set_case(&format!("n=0|ctor=zst-cap|recipe={},{},{}|filling=none|act={}|fault=none|extra=c18", cap_idx, prefix.0, prefix.1, shown));
+            let line = c18_cap_line::<N, R>(prefix, seq);
+            let _ = writeln!(out, "zst-cap\t{},{},{}\t{}\tnone\t{}", cap_idx, prefix.0, prefix.1, shown, line);
+            lines += 1;
+        }
+    }
+    lines
+}
+fn c18_cap_line<const N: usize, const R: usize>(prefix: (u8, usize), seq: &[ZAct]) -> String {
+    let obs = run_obs::<N, Z>(prefix, seq);
+    obs.iter().map(|o| format!("{}/len{}/{}{}/live{}/{}", o.outcome, o.len, if o.is_empty { "E" } else { "e" }, if o.is_full { "F" } else { "f" }, o.live, o.views)).collect::<Vec<_>>().join(" ; ")
+}
+/// C18: zero-sized elements at the twelve extreme/small capacities — every sequence of `depth` steps after every
+/// positioning prefix, as transcript lines (one per sequence) that the builds must agree on
+pub fn c18_lines(depth: usize, out: &mut dyn std::io::Write) -> u64 {
+    let mut lines = 0;
+    for idx in 0..CAPS.len() {
+        lines += with_cap!(idx, c18_cap_lines, idx, depth, out);
+    }
+    lines
+}
+pub fn c18_one(recipe: &str, act: &str) -> Option<String> {
+    let p: Vec<usize> = recipe.split(',').map(|x| x.trim().parse().ok()).collect::<Option<Vec<_>>>()?;
+    if p.len() != 3 || p[0] >= CAPS.len() {
+        return None;
+    }
+    let seq: Vec<ZAct> = act.split(';').filter(|s| !s.trim().is_empty()).map(|s| ZAct::parse(s.trim())).collect::<Option<Vec<_>>>()?;
+    Some(with_cap!(p[0], c18_cap_line, (p[1] as u8, p[2]), &seq))
+}
+
 fn replay_one<const N: usize, const R: usize>(prefix: (u8, usize), seq: &[ZAct]) -> Result<(), (usize, String)> {
     run_seq::<N, R>(prefix, seq).0
 }
